@@ -549,4 +549,204 @@ theorem verifyRange_vdepths :
       · exact ih _ _ _ _ _ _ h6 vp hin
       · exact ih _ _ _ _ _ _ h8 vp hin
 
+
+/-! ### the verified paths lie in pairwise different subtrees -/
+
+/-- neither route is a prefix of the other -/
+def RouteIncomp (x y : VPath VH) : Prop := ¬ x.route <+: y.route ∧ ¬ y.route <+: x.route
+
+theorem not_prefix_of_diverge (P qa qb : List Bool) (b : Bool) :
+    ¬ (P ++ [b] ++ qa) <+: (P ++ [!b] ++ qb) := by
+  rintro ⟨t, ht⟩
+  simp only [List.append_assoc] at ht
+  have := List.append_cancel_left ht
+  simp only [List.cons_append, List.nil_append, List.cons.injEq] at this
+  cases b <;> simp at this
+
+theorem verifyRange_route_prefix :
+    ∀ (fuel : Nat) (pos : List Bool) (sd : Nat) (paths : List (MultiPathProof VH)) (sibs : List Node)
+      (off : Nat) (r : RangeOut Node VH),
+      verifyRange H fuel pos sd paths sibs off = .ok r →
+      ∀ vp ∈ r.paths, ∃ q, vp.route = pos ++ q := by
+  intro fuel
+  induction fuel with
+  | zero => intro pos sd paths sibs off r h; simp [verifyRange] at h
+  | succ fuel ih =>
+    intro pos sd paths sibs off r h vp hvp
+    unfold verifyRange at h
+    match paths, h with
+    | [], h =>
+      simp only at h
+      injection h with h; subst h
+      simp only [List.mem_singleton] at hvp
+      subst hvp; exact ⟨[], by simp⟩
+    | [tp], h =>
+      simp only at h
+      obtain ⟨ul, h1, h⟩ := Outcome.bind_eq_ok h
+      obtain ⟨seg, h2, h⟩ := Outcome.bind_eq_ok h
+      obtain ⟨us, h3, h⟩ := Outcome.bind_eq_ok h
+      simp only [Outcome.pure_eq] at h
+      injection h with h; subst h
+      simp only [List.mem_singleton] at hvp
+      subst hvp; exact ⟨seg, rfl⟩
+    | first :: p2 :: rest, h =>
+      simp only at h
+      obtain ⟨a, h1, h⟩ := Outcome.bind_eq_ok h
+      obtain ⟨b, h2, h⟩ := Outcome.bind_eq_ok h
+      obtain ⟨sr, h3, h⟩ := Outcome.bind_eq_ok h
+      obtain ⟨idx, h4, h⟩ := Outcome.bind_eq_ok h
+      obtain ⟨ls, h5, h⟩ := Outcome.bind_eq_ok h
+      obtain ⟨l, h6, h⟩ := Outcome.bind_eq_ok h
+      obtain ⟨rs, h7, h⟩ := Outcome.bind_eq_ok h
+      obtain ⟨rr, h8, h⟩ := Outcome.bind_eq_ok h
+      simp only [Outcome.pure_eq] at h
+      injection h with h; subst h
+      simp only at hvp
+      rcases List.mem_append.1 hvp with hin | hin
+      · obtain ⟨q, hq⟩ := ih _ _ _ _ _ _ h6 vp hin
+        exact ⟨a.take (shared a b) ++ [false] ++ q, by simp [hq]⟩
+      · obtain ⟨q, hq⟩ := ih _ _ _ _ _ _ h8 vp hin
+        exact ⟨a.take (shared a b) ++ [true] ++ q, by simp [hq]⟩
+
+theorem verifyRange_routes_incomp :
+    ∀ (fuel : Nat) (pos : List Bool) (sd : Nat) (paths : List (MultiPathProof VH)) (sibs : List Node)
+      (off : Nat) (r : RangeOut Node VH),
+      verifyRange H fuel pos sd paths sibs off = .ok r → r.paths.Pairwise RouteIncomp := by
+  intro fuel
+  induction fuel with
+  | zero => intro pos sd paths sibs off r h; simp [verifyRange] at h
+  | succ fuel ih =>
+    intro pos sd paths sibs off r h
+    unfold verifyRange at h
+    match paths, h with
+    | [], h =>
+      simp only at h
+      injection h with h; subst h; simp
+    | [tp], h =>
+      simp only at h
+      obtain ⟨ul, h1, h⟩ := Outcome.bind_eq_ok h
+      obtain ⟨seg, h2, h⟩ := Outcome.bind_eq_ok h
+      obtain ⟨us, h3, h⟩ := Outcome.bind_eq_ok h
+      simp only [Outcome.pure_eq] at h
+      injection h with h; subst h; simp
+    | first :: p2 :: rest, h =>
+      simp only at h
+      obtain ⟨a, h1, h⟩ := Outcome.bind_eq_ok h
+      obtain ⟨b, h2, h⟩ := Outcome.bind_eq_ok h
+      obtain ⟨sr, h3, h⟩ := Outcome.bind_eq_ok h
+      obtain ⟨idx, h4, h⟩ := Outcome.bind_eq_ok h
+      obtain ⟨ls, h5, h⟩ := Outcome.bind_eq_ok h
+      obtain ⟨l, h6, h⟩ := Outcome.bind_eq_ok h
+      obtain ⟨rs, h7, h⟩ := Outcome.bind_eq_ok h
+      obtain ⟨rr, h8, h⟩ := Outcome.bind_eq_ok h
+      simp only [Outcome.pure_eq] at h
+      injection h with h; subst h
+      simp only
+      refine List.pairwise_append.2 ⟨ih _ _ _ _ _ _ h6, ih _ _ _ _ _ _ h8, ?_⟩
+      intro x hx y hy
+      obtain ⟨qx, hqx⟩ := verifyRange_route_prefix H _ _ _ _ _ _ _ h6 x hx
+      obtain ⟨qy, hqy⟩ := verifyRange_route_prefix H _ _ _ _ _ _ _ h8 y hy
+      unfold RouteIncomp
+      rw [hqx, hqy]
+      exact ⟨not_prefix_of_diverge (pos ++ a.take (shared a b)) qx qy false,
+             not_prefix_of_diverge (pos ++ a.take (shared a b)) qy qx true⟩
+
+/-- **at most one verified path covers a key** -/
+theorem verifyMulti_cover_unique (mp : MultiProof Node VH) (root : Node) (v : VerifiedMulti Node VH)
+    (hv : verifyMulti H mp root = .ok v) (key : Key) (i j : Nat) (vi vj : VPath VH)
+    (hi : v.inner[i]? = some vi) (hj : v.inner[j]? = some vj)
+    (hci : vi.covers key) (hcj : vj.covers key) : i = j := by
+  obtain ⟨_, r, hr, _, _, hinner, _⟩ := verifyMulti_ok H mp root v hv
+  have hal := verifyMulti_aligned H mp root v hv
+  have hinc := verifyRange_routes_incomp H _ _ _ _ _ _ r hr
+  rw [← hinner] at hinc
+  have hri : vi.route = key.take vi.depth := (hal vi (List.mem_of_getElem? hi)).trans hci.2.2
+  have hrj : vj.route = key.take vj.depth := (hal vj (List.mem_of_getElem? hj)).trans hcj.2.2
+  obtain ⟨hil, hie⟩ := List.getElem?_eq_some_iff.1 hi
+  obtain ⟨hjl, hje⟩ := List.getElem?_eq_some_iff.1 hj
+  have key_fact : ∀ (x y : VPath VH), x.route = key.take x.depth → y.route = key.take y.depth →
+      RouteIncomp x y → False := by
+    intro x y hx hy hinc
+    rcases Nat.le_total x.depth y.depth with hle | hle
+    · exact hinc.1 (by rw [hx, hy]; exact List.take_prefix_take_left hle)
+    · exact hinc.2 (by rw [hx, hy]; exact List.take_prefix_take_left hle)
+  rcases Nat.lt_trichotomy i j with hlt | heq | hgt
+  · exfalso
+    have := (List.pairwise_iff_getElem.1 hinc) i j hil hjl hlt
+    rw [hie, hje] at this
+    exact key_fact vi vj hri hrj this
+  · exact heq
+  · exfalso
+    have := (List.pairwise_iff_getElem.1 hinc) j i hjl hil hgt
+    rw [hie, hje] at this
+    exact key_fact vj vi hrj hri this
+
+/-! ### the lookups never reach a panic site on an accepted multi-proof -/
+section nopanic
+variable {ε α : Type}
+
+theorem bsLoop_ok (f : α → Outcome ε Ordering) (l : List α) (hf : ∀ x ∈ l, ∃ c, f x = .ok c) :
+    ∀ (fuel base size : Nat), base + size ≤ l.length → 1 ≤ size →
+      ∃ base', bsLoop f l fuel base size = .ok base' ∧ base' < l.length := by
+  intro fuel
+  induction fuel with
+  | zero => intro base size hb h1; exact ⟨base, rfl, by omega⟩
+  | succ fuel ih =>
+    intro base size hb h1
+    unfold bsLoop
+    by_cases hs : size ≤ 1
+    · simp only [hs, if_true]; exact ⟨base, rfl, by omega⟩
+    · simp only [hs, if_false]
+      have hhalf : 1 ≤ size / 2 := Nat.le_div_iff_mul_le (by decide) |>.2 (by omega)
+      have hhalf2 : size / 2 + size / 2 ≤ size := by
+        have := Nat.div_mul_le_self size 2
+        omega
+      have hmid : base + size / 2 < l.length := by omega
+      rw [List.getElem?_eq_getElem hmid]
+      obtain ⟨c, hc⟩ := hf _ (List.getElem_mem hmid)
+      simp only [hc]
+      split
+      · exact ih _ _ (by omega) (by omega)
+      · exact ih _ _ (by omega) (by omega)
+
+theorem binarySearchBy_no_panic (f : α → Outcome ε Ordering) (l : List α) (hf : ∀ x ∈ l, ∃ c, f x = .ok c) :
+    (binarySearchBy f l).isPanic = false := by
+  unfold binarySearchBy
+  by_cases he : l.isEmpty
+  · simp [he, Outcome.isPanic]
+  · simp only [he]
+    have hne : l ≠ [] := by simpa using he
+    have hlen : 1 ≤ l.length := by
+      cases l with
+      | nil => exact absurd rfl hne
+      | cons _ _ => simp
+    obtain ⟨base, hb, hbl⟩ := bsLoop_ok f l hf l.length 0 l.length (by omega) hlen
+    simp only [Bool.false_eq_true, if_false, hb, List.getElem?_eq_getElem hbl]
+    obtain ⟨c, hc⟩ := hf _ (List.getElem_mem hbl)
+    rw [hc]
+    cases c <;> rfl
+
+end nopanic
+
+/-- `find_index_for` on an accepted multi-proof, for a key at least as long as every verified depth:
+no slice is out of range, the answer is an index or `KeyOutOfScope` -/
+theorem findIndexFor_no_panic (mp : MultiProof Node VH) (root : Node) (v : VerifiedMulti Node VH)
+    (hv : verifyMulti H mp root = .ok v) (key : Key) (hk : ∀ vp ∈ v.inner, vp.depth ≤ key.length) :
+    (findIndexFor v key).isPanic = false := by
+  obtain ⟨_, r, hr, _, _, hinner, _⟩ := verifyMulti_ok H mp root v hv
+  have hd : ∀ vp ∈ v.inner, vp.depth ≤ vp.terminal.path.length := by
+    intro vp hvp
+    exact verifyRange_vdepths H _ _ _ _ _ _ r hr vp (hinner ▸ hvp)
+  have hf : ∀ x ∈ v.inner, ∃ c, pathCmp key x = .ok c := by
+    intro x hx
+    refine ⟨bitsCmp (x.terminal.path.take x.depth) (key.take x.depth), ?_⟩
+    simp [pathCmp, sliceUpTo, hd x hx, hk x hx]
+  have := binarySearchBy_no_panic (pathCmp key) v.inner hf
+  unfold findIndexFor
+  revert this
+  cases binarySearchBy (pathCmp key) v.inner with
+  | ok b => cases b <;> simp [Outcome.isPanic]
+  | err e => simp [Outcome.isPanic]
+  | panic s => simp [Outcome.isPanic]
+
 end Nomt
